@@ -996,3 +996,64 @@ def explicit_to_augmented(fn, int_attrs: set) -> int:
                 body[i] = new
                 count += 1
     return count
+
+
+def hoist_walrus(fn) -> int:
+    """`if (x := E) ...:`  ->  `x = E` ; `if x ...:`   when the binding is the first thing with an effect that the statement evaluates, exactly once"""
+    count = 0
+    for body in _stmt_blocks(fn):
+        i = 0
+        while i < len(body):
+            s = body[i]
+            i += 1
+            if isinstance(s, (ast.While, ast.For, ast.AsyncFor)) or isinstance(s, FUNC_TYPES + (ast.ClassDef,)):
+                continue
+            done = False
+            for h in _header_exprs(s):
+                order = list(_eval_order(h))
+                first = next(((x, cond) for x, cond in order if isinstance(x, ast.NamedExpr)), None)
+                if first is None:
+                    # a later header expression is evaluated after this one: stop if this one has effects
+                    if any(not isinstance(x, _PURE_BEFORE + (ast.Compare, ast.UnaryOp, ast.BoolOp)) for x, _ in order):
+                        break
+                    continue
+                x, cond = first
+                if cond or not isinstance(x.target, ast.Name):
+                    break
+                inside = {id(z) for z in ast.walk(x.value)}
+                ok = True
+                for y, _c in order:
+                    if y is x:
+                        break
+                    if id(y) in inside:
+                        continue
+                    if not isinstance(y, _PURE_BEFORE):
+                        ok = False
+                        break
+                if not ok:
+                    break
+                asg = ast.Assign(targets=[ast.Name(id=x.target.id, ctx=ast.Store())], value=x.value)
+                ast.copy_location(asg, s)
+                ast.fix_missing_locations(asg)
+                use = ast.Name(id=x.target.id, ctx=ast.Load())
+                ast.copy_location(use, x)
+
+                class S(ast.NodeTransformer):
+                    def visit_NamedExpr(self, n):
+                        return use if n is x else self.generic_visit(n)
+
+                new_h = S().visit(h)
+                for field, v in ast.iter_fields(s):
+                    if v is h:
+                        setattr(s, field, new_h)
+                    elif isinstance(v, list):
+                        for j, y in enumerate(v):
+                            if y is h:
+                                v[j] = new_h
+                            elif isinstance(y, ast.withitem) and y.context_expr is h:
+                                y.context_expr = new_h
+                body.insert(i - 1, asg)
+                i += 1
+                count += 1
+                break
+    return count
